@@ -335,7 +335,15 @@ def rule_automaton(facts):
     stored0 = [src for bb, dst, src in rot if (dst[1] if dst[0] == "constindex" else cidx(tm.of_local(dst[1]))) == 0]
     mk = [s for (_, t, _, _) in gs for s in [pat.cmp_sides(t)] if s and s[0] in ("Eq", "Ne") and pat.has_const(t, 0xFFFF_FFFF)
           and (pat.has_field(t, "rep") or s[1] in stored0 or s[2] in stored0)]
-    if mk:
+    # ... and rep[0] holds the marker when the test is made: the store of the decoded distance comes first (a decoder that
+    # is called again after an accepted marker must find the impossible distance there)
+    st0 = [bb for bb, dst, src in rot if (dst[1] if dst[0] == "constindex" else cidx(tm.of_local(dst[1]))) == 0 and kind_of(bb) == "match"]
+    mkb = [bb for (bb, t, _, _) in gs for s in [pat.cmp_sides(t)] if s and s[0] in ("Eq", "Ne") and pat.has_const(t, 0xFFFF_FFFF)
+           and (pat.has_field(t, "rep") or s[1] in stored0 or s[2] in stored0)]
+    if mk and not (st0 and all(any(c.dominates(sb, mb) for sb in st0) for mb in mkb)):
+        r.bad("automaton|marker-order", "the end-marker test is made before the decoded distance is stored in rep[0]: after an accepted marker "
+              "rep[0] does not hold 0xFFFF_FFFF", pat.where(b, mkb[0] if mkb else None))
+    elif mk:
         r.ok("term", {"end marker": "rep[0] == 0xFFFF_FFFF"})
     else:
         r.bad("automaton|marker", "the end-marker test rep[0] == 0xFFFF_FFFF is missing", pat.where(b))
